@@ -42,3 +42,15 @@ add("C08", "Hypothesis rule-based state machine over query/mutate/reparse histor
     "Histories of up to 30 public calls (with recursive in-place mutation of every returned structure and re-parsing) are generated and shrunk as one value; after each step every public query is compared with a freshly parsed instance; copy/conjugate tables are compared with the reference and must not share Tree/Token objects with their source.",
     "Trusted: pbt/decref.all_tables, snapshot.py. Reads the private list _parsed_decays (never writes it) for the sharing invariant.",
     "DESIGN.md 4 C08")
+add("C11", "round trips: exhaustive chain shapes and all PDG IDs, Hypothesis chains/modes/final states with JSON-like metadata, parser-produced single-line chains",
+    "to_dict/from_dict round trips are checked field by field for every small shape (exhaustive) and for generated chains with metadata; the four final-state constructors are cross-checked; parser chains are converted to the class form and back.",
+    "Trusted: Counter-based reference of final states; particle's EvtGen name <-> PDG ID table.",
+    "DESIGN.md 4 C11")
+add("C12", "exhaustive enumeration of tree shapes x permutations of the mapping x stable subsets + Hypothesis larger chains vs recursive leaf/product walk",
+    "The fix-point loop is compared with a recursive walk on every shape up to the bound, for every supply order and every stable subset (exhaustive for that space), and on generated larger chains.",
+    "Trusted: pbt/chains.ref_flatten (15 lines); relative tolerance 1e-9 on products.",
+    "DESIGN.md 4 C12")
+add("C13", "round trip: descriptor string read back by a bracket-matching reader, exhaustive small shapes x supply orders + Hypothesis chains x pattern family",
+    "Injectivity/canonicity of the rendering is decided by reading the string back into a tree and comparing with the tree the chain was built from, for all small shapes in all supply orders and for generated chains under a family of user patterns.",
+    "Trusted: pbt/chains.read_descriptor and read_postfix; names with balanced parentheses only.",
+    "DESIGN.md 4 C13")
